@@ -14,6 +14,7 @@ EXPLANATION = (
     "slices char_to_str_pos[start]..char_to_str_pos[end]; Token::tags = tags[(end-1)*n_tags .. end*n_tags]."
 )
 THOROUGH_CONFIGS = [C.MINIMAL, C.NO_TAG]
+QUICK_CONFIGS = [C.NO_TAG]
 NOT_DECIDED = [
     "that surfaces concatenate to the text as values (content of char_to_str_pos; sizing facts are in C05)",
 ]
@@ -23,6 +24,16 @@ W_, N_, U_ = "WordBoundary", "NotWordBoundary", "Unknown"
 
 def run(chk):
     w = C.world_for(chk)
+    from . import ctors as _acc
+    _acc.accessors(chk, w, only=["vaporetto::sentence::"])
+    # tokens, their tags and both writers slice the flat tag vector with n_tags: every function that changes the tags or the tag
+    # count must leave tags.len() == n_tags * len(), and the updates must reset both (shared with C05)
+    from . import c05 as _c05
+    chk.rule("R05.1", "every Sentence field is killed on every Ok path of update_* and on every path of the reset (shared with C05)")
+    chk.rule("R05.2", "Err paths of update_* end in the full reset (shared with C05)")
+    chk.rule("R05.3", "tags length form == n_tags form * len() at every exit of a function that changes either (shared with C05)")
+    _c05.kill_rules(chk, w)
+    _c05.r053(chk, w)
     chk.rule("R02.1", "token iterator transition table equals the specification for all (label, skip) cases")
     chk.rule("R02.2", "stored positions are base+i+1 in the loop-invariant header state; last token ends at len()+1")
     chk.rule("R02.3", "write_tokenized_text goes through the iterator and never reads Sentence.boundaries")
